@@ -34,10 +34,10 @@ JudgeCall(r) ==
                       \* (a same-named method of another class, normalised to its own default 99, is not the site)
              want == Normalized(r.sig, r.shape)
              nontriv == r.shape.kws # <<>> \/ r.shape.npos < r.sig.n
-         IN IF Cardinality(calls) # 1 THEN Verdict(r.id, "REJECT", "CallSiteCount", nontriv, "")
-            ELSE LET cl == CHOOSE x \in calls : TRUE IN
-                 IF cl.p # <<>> THEN Verdict(r.id, "REJECT", "KeywordLeft", nontriv, "")
-                 ELSE IF CallArgs(cl) # want THEN Verdict(r.id, "REJECT", "Arguments", nontriv, "")
+         IN IF calls = {} THEN Verdict(r.id, "REJECT", "CallSiteCount", nontriv, "")
+            \* (a context may write the same call site twice: every occurrence must be normalised)
+            ELSE IF \E cl \in calls : cl.p # <<>> THEN Verdict(r.id, "REJECT", "KeywordLeft", nontriv, "")
+                 ELSE IF \E cl \in calls : CallArgs(cl) # want THEN Verdict(r.id, "REJECT", "Arguments", nontriv, "")
                  ELSE IF ~OperatorsUntouched(r.out) THEN Verdict(r.id, "REJECT", "OperatorArgsChanged", nontriv, "")
                  ELSE Verdict(r.id, "ACCEPT", "", nontriv, "")
 
